@@ -29,6 +29,7 @@ import PGProofs.Bridge
 import PGProofs.BridgeTwoLocus
 import PGProofs.RewardsThm
 import PGProofs.EndToEnd2
+import PGProofs.EndToEnd3
 
 set_option linter.all false
 set_option pp.fieldNotation.generalized false
@@ -90,6 +91,9 @@ theorem end_to_end_cdf : ∀ {D : ℕ} {K : Type} [inst : Field K] [inst_1 : Lin
 /-- with the epochs produced by the demography model -/
 theorem end_to_end_cdf_demography : ∀ {K : Type} [inst : Field K] [inst_1 : LinearOrder K] [inst_2 : IsStrictOrderedRing K] (I : Config.Input) (o : DemoOpts) (count : ℕ) {m : Model} (tsOf : ℚ → ℚ) {cinit : Fin (List.length (Config.axis I)) → ℕ} {r : ℕ → ℚ} {fuel : ℕ → ℕ} {G : ℕ → Graph}, (∀ (e : ℕ), bfs (transit m (mkEpoch (EndToEnd.demoTs tsOf I (EndToEnd.demoEpochs o I count) (List.length (Config.axis I)) e) (EndToEnd.demoMig I (EndToEnd.demoEpochs o I count) (List.length (Config.axis I)) e) (r e))) (encLC cinit) (fuel e) = some (G e)) → ∀ (L : ExpLaw K) (n : ℕ) (c0 : Fin (List.length (Config.axis I)) → ℕ) (x0 : Assembly.LabS encLC (G 0).visited (∑ d, cinit d)), cntF (Assembly.LabP.val x0) = c0 → ∀ (times : List ℚ), (∀ t ∈ times, 0 ≤ t) → EndToEnd.cdfCallK L G n c0 (List.map Epoch.toT (EndToEnd.demoEpochs o I count)) times = Except.ok (List.map (EndToEnd.labCdf L m (EndToEnd.demoTs tsOf I (EndToEnd.demoEpochs o I count) (List.length (Config.axis I))) (EndToEnd.demoMig I (EndToEnd.demoEpochs o I count) (List.length (Config.axis I))) G cinit n x0 (List.map Epoch.toT (EndToEnd.demoEpochs o I count))) times) := @PG.EndToEnd.cdf_with_demography
 
+/-- CAPSTONE: the two-locus tree_height.cdf on any list of non-negative times is the cdf of the labelled ARG -/
+theorem end_to_end_cdf_two_locus : ∀ {D : ℕ} {K : Type} [inst : Field K] [inst_1 : LinearOrder K] [inst_2 : IsStrictOrderedRing K] {cinit : Fin D × LCls → ℕ} {ts : ℕ → Fin D → ℚ} {mig : ℕ → Fin D → Fin D → ℚ} {r : ℕ → ℚ} {fuel : ℕ → ℕ} {G : ℕ → Graph}, (∀ (e : ℕ), bfs (transit Model.kingman (mkEpoch (ts e) (mig e) (r e))) (enc2 cinit) (fuel e) = some (G e)) → ∀ (L : ExpLaw K) (n' : ℕ) (nv : Fin D → ℕ) (x0 : Assembly.LabS enc2 (G 0).visited (Assembly.bound2 (G 0).visited)), cntF (Assembly.LabP.val x0) = Assembly.sample2 nv → ∀ (eps : List EpochT) (times : List ℚ), (∀ t ∈ times, 0 ≤ t) → EndToEnd.cdfCallK2 L G n' nv eps times = Except.ok (List.map (EndToEnd.labCdf2 L ts mig r G n' x0 eps) times) := @PG.EndToEnd.cdf_two_locus_eq_labelled
+
 end PG.C03
 
 #print axioms PG.C03.cdf_zero
@@ -110,3 +114,4 @@ end PG.C03
 #print axioms PG.C03.two_locus_generator
 #print axioms PG.C03.end_to_end_cdf
 #print axioms PG.C03.end_to_end_cdf_demography
+#print axioms PG.C03.end_to_end_cdf_two_locus
